@@ -68,6 +68,11 @@ def run(ctx):
             base.hyper['inv_update_steps'] = rng.choice([2, 3])
             ks = [k for k in range(2, base.world + 1) if base.world % k == 0]
             base.k = rng.choice(ks)
+        if b % 4 == 2:
+            # directed corner: explicit inverses of float32 factors (the dtype the inversion runs in), refreshed every step
+            base.method, base.prediv, base.fac32 = 'inverse', False, True
+            base.hyper['inv_update_steps'] = 1
+            directed = True
         for _ in range(rng.randrange(4 if directed else 2, ctx.budget(6, 9))):
             base.ops += ['f1'] * base.accum + ['s']
             if rng.random() < 0.2:
